@@ -10,6 +10,7 @@ pub fn dispatch(host: &mut Host, name: &str, op: &Value) -> Result<Option<Value>
     match name {
         "d.run" => driver_run(op),
         "a.run" => async_vs_sync(host, op),
+        "a.timers" => async_timer_task(op),
         _ => Err(format!("unknown driver op {name}")),
     }
 }
@@ -134,4 +135,53 @@ fn async_vs_sync(host: &mut Host, op: &Value) -> Result<Option<Value>, String> {
     let obs = super::machine_obs(&rt, &watch);
     host.machines.insert(slot, Box::new(rt));
     Ok(Some(json!({"stats": stats, "err": err, "obs": obs})))
+}
+
+
+/// ["a.timers", {"enabled":bool,"mti":n,"sti":n}, [[cycles, power]...]]
+/// A CoreRuntime whose timers and keyboard are driven by AsyncTimerKeyboardTask::run() on the virtual-time
+/// scheduler (no CPU task).  Per segment: the power state is imposed (0 running, 1 halted, 2 off), the driver
+/// runs for `cycles`, the host reads [clock, ISR, next_mti, next_sti] and clears the two timer status bits.
+fn async_timer_task(op: &Value) -> Result<Option<Value>, String> {
+    use sc62015_core::llama::state::PowerState;
+    use sc62015_core::{AsyncTimerKeyboardTask, CoreRuntime};
+    const IMEM_ISR_OFFSET: u32 = 0xFC;
+    let cfg = op.get(1).ok_or_else(|| "cfg".to_string())?;
+    let segs = op
+        .get(2)
+        .and_then(|x| x.as_array())
+        .ok_or_else(|| "segments".to_string())?;
+    let runtime = Rc::new(RefCell::new(CoreRuntime::new()));
+    {
+        let mut rt = runtime.borrow_mut();
+        rt.timer.enabled = cfg.get("enabled").and_then(|x| x.as_bool()).unwrap_or(true);
+        rt.timer.mti_period = cfg.get("mti").and_then(|x| x.as_u64()).unwrap_or(0);
+        rt.timer.sti_period = cfg.get("sti").and_then(|x| x.as_u64()).unwrap_or(0);
+        rt.timer.reset(0);
+        rt.memory.write_internal_byte(IMEM_ISR_OFFSET, 0);
+    }
+    let task = AsyncTimerKeyboardTask::new(runtime.clone());
+    let mut driver = AsyncDriver::new();
+    driver.spawn(async move {
+        task.run().await;
+    });
+    let mut out: Vec<Value> = Vec::new();
+    for seg in segs {
+        let cycles = seg.get(0).and_then(|x| x.as_u64()).unwrap_or(0);
+        let power = seg.get(1).and_then(|x| x.as_u64()).unwrap_or(0);
+        {
+            let mut rt = runtime.borrow_mut();
+            rt.state.set_power_state(match power {
+                1 => PowerState::Halted,
+                2 => PowerState::Off,
+                _ => PowerState::Running,
+            });
+        }
+        let res = driver.run_for(cycles);
+        let mut rt = runtime.borrow_mut();
+        let isr = rt.memory.read_internal_byte(IMEM_ISR_OFFSET).unwrap_or(0);
+        out.push(json!([driver.clock(), isr, rt.timer.next_mti, rt.timer.next_sti, res.cycles_executed]));
+        rt.memory.write_internal_byte(IMEM_ISR_OFFSET, isr & !0x03);
+    }
+    Ok(Some(Value::Array(out)))
 }
